@@ -441,7 +441,12 @@ func (packet *PacketHandler) ReplaceBind(bindPacket *BindPacket) error {
 
 // GetSimpleQuery return query value as string from Query packet
 func (packet *PacketHandler) GetSimpleQuery() (string, error) {
-	return string(packet.descriptionBuf.Bytes()[:packet.dataLength-1]), nil
+	data := packet.descriptionBuf.Bytes()
+	if packet.dataLength < 1 || packet.dataLength > len(data) {
+		// a Query message without even the string terminator
+		return "", ErrPacketTruncated
+	}
+	return string(data[:packet.dataLength-1]), nil
 }
 
 func (packet *PacketHandler) setDataLengthBuffer(dataLengthBuffer []byte) {
@@ -460,6 +465,9 @@ func (packet *PacketHandler) readDataLength() error {
 	return nil
 }
 
+// maxPacketPreallocation bounds the memory reserved for a message before its payload has arrived
+const maxPacketPreallocation = 64 * 1024
+
 // readData part of packet
 func (packet *PacketHandler) readData(readLength bool) error {
 	if readLength {
@@ -467,7 +475,17 @@ func (packet *PacketHandler) readData(readLength bool) error {
 			return err
 		}
 	}
-	packet.descriptionBuf.Grow(packet.dataLength)
+	if packet.dataLength < 0 {
+		// declared message length smaller than the length field itself
+		return ErrPacketTruncated
+	}
+	// the declared length comes from the other side: reserve a bounded amount up front,
+	// the buffer grows with the data that actually arrives
+	if packet.dataLength > maxPacketPreallocation {
+		packet.descriptionBuf.Grow(maxPacketPreallocation)
+	} else {
+		packet.descriptionBuf.Grow(packet.dataLength)
+	}
 	packet.logger.Debugln("Read data")
 	nn, err := io.CopyN(packet.descriptionBuf, packet.reader, int64(packet.dataLength))
 	return base.CheckReadWrite(int(nn), packet.dataLength, err)
